@@ -82,6 +82,18 @@ OPS = ["Write", "Read", "Exists", "ListDir", "Delete", "Size", "Mtime"]
 
 
 # ======================================================================================== plumbing
+def ceval(exprs: List[str], chunk: int = 400) -> List[Any]:
+    """coq_eval in groups of at most JOBS chunks.  coqbuild.coq_eval collects a job's output only after it
+    exits (or once every job has been launched); with more chunks than JOBS and a chunk output larger than
+    the pipe buffer all running jobs block on their pipes and the launcher waits forever.  Launching at most
+    JOBS chunks per call avoids that without touching the shared file."""
+    out: List[Any] = []
+    group = chunk * max(1, coqbuild.JOBS)
+    for i in range(0, len(exprs), group):
+        out.extend(coqbuild.coq_eval(REQ, exprs[i:i + group], chunk=chunk))
+    return out
+
+
 class VirtualSleep:
     """Replaces the `time` module seen by datashard.s3_consistency: sleeps are recorded, not slept."""
 
@@ -251,7 +263,7 @@ def gen_domain_cases(ctx) -> List[Tuple[str, List[Tuple[str, bytes]], List[Tuple
                    ("Delete", k1), ("ListDir", d), ("Exists", k1), ("Size", k2), ("Read", k1), ("Read", k2), ("Mtime", k1)]
             cases.append((pfx, F, ops))
     # random
-    for _ in range(700 if ctx.tier == "quick" else 4000):
+    for _ in range(700 if ctx.tier == "quick" else 2500):
         pfx, F = rng.choice(PREFIXES)
         ops = []
         for _ in range(rng.randint(1, 25)):
@@ -383,7 +395,7 @@ def corr_backends(ctx, cases, impl_obs) -> None:
     exprs = []
     for pfx, F, ops in cases:
         exprs.append(f"case3 {cstr(pfx)} {foreign_coq(F)} [" + "; ".join(op_coq(o, "kk") for o in ops) + "]")
-    got = coqbuild.coq_eval(REQ, exprs, chunk=120)
+    got = ceval(exprs, chunk=120)
     bad_local, bad_s3, bad_thm = [], [], []
     outside = 0
     for idx, ((pfx, F, ops), g) in enumerate(zip(cases, got)):
@@ -406,7 +418,7 @@ def corr_backends(ctx, cases, impl_obs) -> None:
     ctx.stats["backend_cases_outside_theorem_domain"] = outside
     # which requests each operation issued, and how many times (with_s3_retry around a consistent store)
     exprs = [f"trace_case 2 {cstr(pfx)} {foreign_coq(F)} [" + "; ".join(op_coq(o, "kk") for o in ops) + "]" for pfx, F, ops in cases]
-    got = coqbuild.coq_eval(REQ, exprs, chunk=120)
+    got = ceval(exprs, chunk=120)
     bad_tr = []
     nreq = 0
     for idx, ((pfx, F, ops), g) in enumerate(zip(cases, got)):
@@ -425,10 +437,10 @@ def corr_backends(ctx, cases, impl_obs) -> None:
 
 def corr_raw(ctx) -> None:
     """Raw strings, outside the canonical domain: each backend against its own model; contract differences are counted."""
-    n = 250 if ctx.tier == "quick" else 2500
+    n = 250 if ctx.tier == "quick" else 1500
     s3_cases = [(ctx.rng.choice(PREFIXES), ops) for ops in gen_raw_cases(ctx, RAW_S3_PATHS, n)]
     exprs = [f"run_s3_str {cstr(pf[0])} {foreign_coq(pf[1])} [" + "; ".join(op_coq(o, "") for o in ops) + "]" for pf, ops in s3_cases]
-    got = coqbuild.coq_eval(REQ, exprs, chunk=120)
+    got = ceval(exprs, chunk=120)
     bad = []
     for (pf, ops), g in zip(s3_cases, got):
         impl, _ = run_s3(ops, pf[0], pf[1])
@@ -441,7 +453,7 @@ def corr_raw(ctx) -> None:
 
     lcases = gen_raw_cases(ctx, RAW_LOCAL_PATHS, n)
     exprs = ["run_local_str [" + "; ".join(op_coq(o, "") for o in ops) + "]" for ops in lcases]
-    got = coqbuild.coq_eval(REQ, exprs, chunk=120)
+    got = ceval(exprs, chunk=120)
     bad = []
     differ = 0
     examples: List[Any] = []
@@ -506,7 +518,7 @@ def corr_kernels(ctx) -> None:
         impl.append((key, stub.prefix_seen, rel[0]))
         exprs.append(f"(sh (gen_get_s3_key (lit {cstr(a)}) (lit {cstr(b)})), sh (gen_list_prefix (lit {cstr(a)}) (lit {cstr(b)})), "
                      f"sh (gen_strip_prefix (lit {cstr(a)}) (lit {cstr(b)})))")
-    got = coqbuild.coq_eval(REQ, exprs)
+    got = ceval(exprs)
     bad = [{"prefix": a, "arg": b, "impl": i, "model": list(g)} for (a, b), i, g in zip(pairs, impl, got) if tuple(g) != i]
     ctx.correspondence("gen-kernels", len(pairs), bad)
     # constructor prefix and create_storage_backend's join
@@ -530,7 +542,7 @@ def corr_kernels(ctx) -> None:
                 os.environ.pop(k, None)
             else:
                 os.environ[k] = v
-    got = coqbuild.coq_eval(REQ, exprs)
+    got = ceval(exprs)
     bad = [{"env_prefix": a, "table_path": b, "impl": i, "model": g} for (a, b), i, g in zip(env_pairs, impl, got) if g != i]
     ctx.correspondence("gen-prefix-join", len(env_pairs), bad)
     ctx.count(len(pairs) + len(env_pairs))
@@ -691,7 +703,10 @@ def oracle_range(ctx) -> None:
     jobs = []
     maxlen_full = 3 if ctx.tier == "quick" else 4
     for size in SIZES_SMALL + [BIG]:
-        progs = programs(size, maxlen_full)
+        progs = programs(size, maxlen_full if size != BIG else 3)
+        if size == BIG and ctx.tier == "thorough":
+            al = range_alphabet(size)
+            progs += [tuple(rng.choice(al) for _ in range(4)) for _ in range(30000)]
         if ctx.tier == "quick":
             al = range_alphabet(size)
             progs += [tuple(rng.choice(al) for _ in range(4)) for _ in range(4000 if size != BIG else 1500)]
@@ -784,7 +799,7 @@ def corr_range(ctx) -> None:
         ps += [tuple(rng.choice(al) for _ in range(rng.randint(4, 8))) for _ in range(300 if ctx.tier == "quick" else 3000)]
         cases += [(size, p) for p in ps]
     exprs = [f"range_case false (content_of_size {s}) {prog_coq(p)}" for s, p in cases]
-    got = coqbuild.coq_eval(REQ, exprs)
+    got = ceval(exprs)
     rigs = {s: RangeRig(ctx.scratch, s) for s in SIZES_SMALL + [BIG]}
     bad = []
     for (size, p), g in zip(cases, got):
@@ -802,7 +817,7 @@ def corr_range(ctx) -> None:
     bigp = [tuple(rng.choice(al) for _ in range(rng.randint(1, 4))) for _ in range(40 if ctx.tier == "quick" else 400)]
     batches = [bigp[i:i + 20] for i in range(0, len(bigp), 20)]
     exprs = [f"let c := content_of_size {BIG} in map (range_case true c) [" + "; ".join(prog_coq(p) for p in b) + "]" for b in batches]
-    got = coqbuild.coq_eval(REQ, exprs, chunk=1)
+    got = ceval(exprs, chunk=1)
     bad = []
     for b, gs in zip(batches, got):
         for p, g in zip(b, gs):
@@ -927,7 +942,7 @@ def oracle_and_corr_retry(ctx, vs: VirtualSleep) -> None:
                 ctx.violation(key, f"with_s3_retry on outcome script {kinds}: {why}", {"kind": "retry", "script": kinds, "index": ci, "why": why})
         impl.append((res, attempts, sleeps, script))
         exprs.append("retry_case [" + "; ".join(f"inl {x[1]}" if isinstance(x, tuple) else f"inr {exc_coq(x)}" for x in script) + "]")
-    got = coqbuild.coq_eval(REQ, exprs)
+    got = ceval(exprs)
     bad = []
     for kinds, (res, attempts, sleeps, script), g in zip(cases, impl, got):
         r_m, n_m, sl_m = g
